@@ -385,10 +385,12 @@ def build():
             "replay_cmd_template": "./check --replay {path}",
             "engine": "qv",
             "level_claimed": {"category": "other",
-                              "text": c["text"] + ((" " + SECOND_PASS[pid][0]) if SECOND_PASS.get(pid, ("",))[0] else ""),
-                              "design_ref": c["design"] + (", 9.5" if "9.5" not in c["design"] else "")},
+                              "text": c["text"] + ((" " + SECOND_PASS[pid][0]) if SECOND_PASS.get(pid, ("",))[0] else "")
+                              + ((" " + THIRD_PASS[pid][0]) if pid in THIRD_PASS else ""),
+                              "design_ref": c["design"] + (", 9.5" if "9.5" not in c["design"] else "") + ", 9.8"},
             "level_note": c["note"],
-            "technique": c["technique"] + (("; " + SECOND_PASS[pid][1]) if SECOND_PASS.get(pid, ("", ""))[1] else ""),
+            "technique": c["technique"] + (("; " + SECOND_PASS[pid][1]) if SECOND_PASS.get(pid, ("", ""))[1] else "")
+            + (("; " + THIRD_PASS[pid][1]) if pid in THIRD_PASS else ""),
         })
     man = {
         "version": 1,
@@ -478,6 +480,56 @@ SECOND_PASS = {
             "label is written only by constructors, the guarded first addition and the conversion loop.",
             "who-may-write rule with guard dominance"),
     "C20": ("", ""),
+}
+
+
+# clauses added in the third pass (DESIGN 9.8); appended after the second-pass text
+THIRD_PASS = {
+    "C01": ("Third pass: loops that fill or mask a tensor cover the allocated extent of every axis (axis-coverage "
+            "tracking in the TA front end); no element-wise write goes through a view of the tensor data.",
+            "axis-coverage tracking (loop bound vs allocated extent), view-provenance rule"),
+    "C02": ("Third pass: the Hamiltonian matrix is read through its basis-managed property by the routine that uses "
+            "it (no representation cached on the propagator); propagators and evolutions read the Hamiltonian and the "
+            "frame frequencies under internal units.",
+            "cached-managed-read analysis, internal-units discipline of calculators (lexical block or protected callers)"),
+    "C03": ("Third pass: the operators handed out do not share storage with arrays the aggregate rewrites in place.",
+            "shared-storage (aliasing) analysis"),
+    "C05": ("Third pass: bath-function constructors store energy parameters independently of the caller's units, also in "
+            "their own loops; every class of quantarhei.qm that keeps a Hamiltonian to compute with reads "
+            "units-converting accessors under internal units.",
+            "unit-state typing of constructor loops, internal-units discipline of calculators"),
+    "C06": ("Third pass: the Lambda operators are filled for every system state; donor and acceptor arguments of the "
+            "Foerster integral carry the donor and acceptor index; rate matrices and the Redfield tensor read the "
+            "Hamiltonian, reorganisation energies and Fourier-transformed correlation functions under internal units.",
+            "role binding through callee parameters, internal-units discipline of calculators"),
+    "C07": ("Third pass: the tensor-form and operator-form propagation routines are the same Taylor scheme; both "
+            "Redfield tensors are calculated under internal units on every way of initialising them.",
+            "Taylor recogniser on the two routines, internal-units discipline of calculators"),
+    "C08": ("Third pass: direct propagation with pure dephasing derives its factors from the step in force; the "
+            "superoperator, its conversion from the rotating frame and the propagator behind it work under internal units.",
+            "derived-state freshness, internal-units discipline of calculators"),
+    "C09": ("Third pass: the constructors' own loops add energy entries in internal units; running integrals of bath "
+            "functions are taken with respect to their axis (quadrature spacing).",
+            "unit-state typing of constructor loops, quadrature-spacing rule"),
+    "C11": ("Third pass: the frequency axis is shifted by the rotating-frame frequency of the propagated signal.",
+            "frame-frequency provenance rule"),
+    "C12": ("Third pass: transition dephasing and transition width are sibling look-ups (recorded known finding for the "
+            "two band-crossing branches); screening thresholds scale like the quantities they are compared with.",
+            "sibling cross-check, scaling-degree (dimensional) analysis"),
+    "C14": ("Third pass: the tensor builders leave no basis protection on the system's Hamiltonian.",
+            "paired protect/unprotect rule (shared with C15-E4)"),
+    "C15": ("Third pass: builders return stored results only under a key that covers every argument the result depends on.",
+            "stored-result key analysis"),
+    "C16": ("Third pass: the per-bath getters forward the index they are given; the hierarchy and its propagator read "
+            "energies under internal units.",
+            "index-forwarding rule, internal-units discipline of calculators"),
+    "C18": ("Third pass: the index of a save directory is rebuilt from the directory on every save.",
+            "derived-state freshness of the directory index"),
+    "C19": ("Third pass: reading a view never writes into the storage (ownership states of the accumulators); stored "
+            "cells own their arrays and spectra built from a response get copies.",
+            "path-sensitive ownership-state analysis, storage-ownership rule"),
+    "C20": ("Third pass: the public block helpers hand every rank exactly its block, with and without indices.",
+            "finite evaluation of the helpers"),
 }
 
 
